@@ -9,10 +9,20 @@
 //! out by the (4-byte chunked, counting) read callback, and the three internal dumps (tree before
 //! the edit, edited tree, new tree) from which the Lean driver `tsv-c12` computes node sharing and
 //! evaluates the judge.
+//!
+//! Round 11 — interrupted drives: `where` = `<pos>@<mode>` re-parses the same edited tree with a
+//! progress callback that CANCELS the parse (`ControlFlow::Break`) at chosen callback invocations and
+//! then calls parse again WITHOUT `reset` (same old tree, same input) until the tree is complete.
+//! `<mode>` ∈ early (callback 0) | middle (N/2) | late (N-1) | twice (N/3 and 2N/3) | `k<a>[,<b>…]`
+//! (explicit 0-based callback indices, counted over the whole drive), N = number of callback
+//! invocations of the same re-parse when it is not cancelled.  The three quantities are SUMMED over
+//! the interrupted run and all resumed runs (one logger counter, one read-callback counter, sharing of
+//! the final tree with the edited old tree) and judged against the same thresholds.
 use std::io::Write;
+use std::ops::ControlFlow;
 use std::sync::atomic::{AtomicUsize, Ordering};
 use std::sync::Arc;
-use tree_sitter::{LogType, Parser, Point, Tree};
+use tree_sitter::{LogType, ParseOptions, ParseState, Parser, Point, Tree};
 use tsv_harness::*;
 
 const CHUNK: usize = 4;
@@ -195,7 +205,78 @@ fn counted_parse(parser: &mut Parser, text: &[u8], old: Option<&Tree>, served: A
     )
 }
 
-fn run_case(out: &mut impl Write, b: &zoo::Built, lang: &str, tokens: usize, wher: &str, seed: u64) -> bool {
+/// One re-parse driven through the progress callback: cancel at the callback invocations listed in
+/// `cancel_at` (0-based, counted over the whole drive), resume by calling parse again without reset.
+/// Returns (tree, callbacks seen, cancellations that happened, per-run (lexed, bytes) deltas are taken by the caller).
+fn interrupted_parse(
+    parser: &mut Parser,
+    text: &[u8],
+    old: &Tree,
+    served: &Arc<AtomicUsize>,
+    cancel_at: &[usize],
+    mut after_run: impl FnMut(),
+) -> (Option<Tree>, usize, usize) {
+    let len = text.len();
+    let mut n = 0usize;
+    let mut cancelled = 0usize;
+    for _run in 0..cancel_at.len() + 2 {
+        let r = {
+            let mut cb = |_: &ParseState| {
+                let stop = cancel_at.contains(&n);
+                n += 1;
+                if stop || n > 10_000_000 {
+                    ControlFlow::Break(())
+                } else {
+                    ControlFlow::Continue(())
+                }
+            };
+            let sv = served.clone();
+            parser.parse_with_options(
+                &mut |i: usize, _p: Point| -> &[u8] {
+                    if i >= len {
+                        &[]
+                    } else {
+                        let s = &text[i..(i + CHUNK).min(len)];
+                        sv.fetch_add(s.len(), Ordering::Relaxed);
+                        s
+                    }
+                },
+                Some(old),
+                Some(ParseOptions::new().progress_callback(&mut cb)),
+            )
+        };
+        after_run();
+        match r {
+            Some(t) => return (Some(t), n, cancelled),
+            None => cancelled += 1,
+        }
+    }
+    parser.reset();
+    (None, n, cancelled)
+}
+
+/// Resolve an interruption mode to callback indices, given the callback count of the uncancelled re-parse.
+fn cancel_points(mode: &str, n: usize) -> Vec<usize> {
+    if let Some(list) = mode.strip_prefix('k') {
+        return list.split(',').filter_map(|x| x.parse().ok()).collect();
+    }
+    if n == 0 {
+        return vec![];
+    }
+    let mut v = match mode {
+        "early" => vec![0],
+        "middle" => vec![n / 2],
+        "late" => vec![n - 1],
+        "twice" => vec![n / 3, (2 * n) / 3],
+        _ => vec![],
+    };
+    v.dedup();
+    v
+}
+
+/// Base (uninterrupted) case for edit position `wher` when `emit_base`, then one interrupted drive per
+/// entry of `modes` on the same document / edit / old tree.  Returns whether everything asked for was measured.
+fn run_case(out: &mut impl Write, b: &zoo::Built, lang: &str, tokens: usize, wher: &str, seed: u64, emit_base: bool, modes: &[String]) -> bool {
     let doc = build_doc(b, lang, tokens, seed);
     let mut parser = Parser::new();
     parser.set_language(&b.language).unwrap();
@@ -300,34 +381,142 @@ fn run_case(out: &mut impl Write, b: &zoo::Built, lang: &str, tokens: usize, whe
         Some(t) => t,
         None => return false,
     };
-    let cid = format!("{lang}-{tokens}-{wher}");
-    writeln!(out, "spec {cid} {lang} {tokens} {wher} {seed}").unwrap();
-    writeln!(out, "case {cid}").unwrap();
-    writeln!(out, "lang {lang}").unwrap();
-    writeln!(out, "size {tokens}").unwrap();
-    writeln!(out, "where {wher}").unwrap();
-    writeln!(out, "edit {}", fmt_edit(&ie)).unwrap();
-    writeln!(
-        out,
-        "measure tokens={} doc_bytes={} lexed={} reuse_events={} bytes_served={} scratch_bytes_served={} incr_error={} scratch_error={} same_sexp={}",
-        ntok,
-        new.len(),
-        lexed.load(Ordering::Relaxed),
-        reused.load(Ordering::Relaxed),
-        served.load(Ordering::Relaxed),
-        served0.load(Ordering::Relaxed),
-        incr.root_node().has_error() as u8,
-        scratch.root_node().has_error() as u8,
-        (incr.root_node().to_sexp() == scratch.root_node().to_sexp()) as u8
-    )
-    .unwrap();
-    if tokens <= 20000 {
-        writeln!(out, "before\n{before}").unwrap();
+    if emit_base {
+        let cid = format!("{lang}-{tokens}-{wher}");
+        writeln!(out, "spec {cid} {lang} {tokens} {wher} {seed}").unwrap();
+        writeln!(out, "case {cid}").unwrap();
+        writeln!(out, "lang {lang}").unwrap();
+        writeln!(out, "size {tokens}").unwrap();
+        writeln!(out, "where {wher}").unwrap();
+        writeln!(out, "edit {}", fmt_edit(&ie)).unwrap();
+        writeln!(
+            out,
+            "measure tokens={} doc_bytes={} lexed={} reuse_events={} bytes_served={} scratch_bytes_served={} incr_error={} scratch_error={} same_sexp={}",
+            ntok,
+            new.len(),
+            lexed.load(Ordering::Relaxed),
+            reused.load(Ordering::Relaxed),
+            served.load(Ordering::Relaxed),
+            served0.load(Ordering::Relaxed),
+            incr.root_node().has_error() as u8,
+            scratch.root_node().has_error() as u8,
+            (incr.root_node().to_sexp() == scratch.root_node().to_sexp()) as u8
+        )
+        .unwrap();
+        if tokens <= 20000 {
+            writeln!(out, "before\n{before}").unwrap();
+        }
+        writeln!(out, "edited\n{edited}").unwrap();
+        writeln!(out, "new\n{}", dump_tree(&incr)).unwrap();
+        writeln!(out, "run").unwrap();
     }
-    writeln!(out, "edited\n{edited}").unwrap();
-    writeln!(out, "new\n{}", dump_tree(&incr)).unwrap();
-    writeln!(out, "run").unwrap();
-    true
+    // ---- interrupted drives: the same re-parse cancelled by the progress callback and resumed ----
+    let mut ok = true;
+    let scratch_sexp = scratch.root_node().to_sexp();
+    for mode in modes {
+        let cid = format!("{lang}-{tokens}-{wher}@{mode}");
+        // N = callback invocations of this re-parse when nothing is cancelled
+        let (t0, ncb, _) = interrupted_parse(&mut parser, &new, &tree, &Arc::new(AtomicUsize::new(0)), &[], || {});
+        if t0.is_none() {
+            ok = false;
+            continue;
+        }
+        drop(t0);
+        let ks = cancel_points(mode, ncb);
+        let lexed_i = Arc::new(AtomicUsize::new(0));
+        let reused_i = Arc::new(AtomicUsize::new(0));
+        let resumes_i = Arc::new(AtomicUsize::new(0));
+        let (l2, r2, s2) = (lexed_i.clone(), reused_i.clone(), resumes_i.clone());
+        parser.set_logger(Some(Box::new(move |t, m| {
+            if t == LogType::Parse {
+                if m.starts_with("lexed_lookahead") {
+                    l2.fetch_add(1, Ordering::Relaxed);
+                } else if m.starts_with("reuse_node") {
+                    r2.fetch_add(1, Ordering::Relaxed);
+                } else if m.starts_with("resume_parsing") {
+                    s2.fetch_add(1, Ordering::Relaxed);
+                }
+            }
+        })));
+        let served_i = Arc::new(AtomicUsize::new(0));
+        let mut marks: Vec<(usize, usize)> = Vec::new();
+        let (ti, seen, cancelled) = interrupted_parse(&mut parser, &new, &tree, &served_i, &ks, || {
+            marks.push((lexed_i.load(Ordering::Relaxed), served_i.load(Ordering::Relaxed)))
+        });
+        parser.set_logger(None);
+        let per_run = |f: fn(&(usize, usize)) -> usize| -> String {
+            let mut prev = 0;
+            let mut v = Vec::new();
+            for m in &marks {
+                v.push((f(m) - prev).to_string());
+                prev = f(m);
+            }
+            if v.is_empty() { "-".into() } else { v.join(",") }
+        };
+        let ks_s = if ks.is_empty() { "-".to_string() } else { ks.iter().map(|k| k.to_string()).collect::<Vec<_>>().join(",") };
+        writeln!(
+            out,
+            "interrupt {cid} callbacks_uncancelled={ncb} cancel_at={ks_s} cancelled={cancelled} runs={} callbacks_seen={seen} resume_events={} lexed_per_run={} bytes_per_run={} completed={}",
+            marks.len(),
+            resumes_i.load(Ordering::Relaxed),
+            per_run(|m| m.0),
+            per_run(|m| m.1),
+            ti.is_some() as u8
+        )
+        .unwrap();
+        let ti = match ti {
+            Some(t) => t,
+            None => {
+                ok = false;
+                continue;
+            }
+        };
+        if cancelled == 0 {
+            continue; // nothing was interrupted: identical to the base case, not emitted
+        }
+        writeln!(out, "spec {cid} {lang} {tokens} {wher}@{mode} {seed}").unwrap();
+        writeln!(out, "case {cid}").unwrap();
+        writeln!(out, "lang {lang}").unwrap();
+        writeln!(out, "size {tokens}").unwrap();
+        writeln!(out, "where {wher}@{mode}").unwrap();
+        writeln!(out, "edit {}", fmt_edit(&ie)).unwrap();
+        writeln!(
+            out,
+            "measure tokens={} doc_bytes={} lexed={} reuse_events={} bytes_served={} scratch_bytes_served={} incr_error={} scratch_error={} same_sexp={}",
+            ntok,
+            new.len(),
+            lexed_i.load(Ordering::Relaxed),
+            reused_i.load(Ordering::Relaxed),
+            served_i.load(Ordering::Relaxed),
+            served0.load(Ordering::Relaxed),
+            ti.root_node().has_error() as u8,
+            scratch.root_node().has_error() as u8,
+            (ti.root_node().to_sexp() == scratch_sexp) as u8
+        )
+        .unwrap();
+        writeln!(out, "edited\n{edited}").unwrap();
+        writeln!(out, "new\n{}", dump_tree(&ti)).unwrap();
+        writeln!(out, "run").unwrap();
+    }
+    ok
+}
+
+/// Interrupted drives of a language: two (edit position, interruption mode) pairs, the same for both
+/// sizes (so the growth comparison applies), rotated over the languages by the seed.
+const SCHEDULE: [(&str, &str); 8] = [
+    ("start", "early"),
+    ("mid", "middle"),
+    ("end", "late"),
+    ("q1", "twice"),
+    ("deep", "middle"),
+    ("q3", "early"),
+    ("end", "early"),
+    ("start", "twice"),
+];
+
+fn modes_for(lang_index: usize, seed: u64, wher: &str) -> Vec<String> {
+    let base = lang_index * 2 + (seed % 8) as usize;
+    (0..2).map(|j| SCHEDULE[(base + j) % 8]).filter(|(p, _)| *p == wher).map(|(_, m)| m.to_string()).collect()
 }
 
 fn main() {
@@ -344,7 +533,11 @@ fn main() {
                 continue;
             }
             let b = zoo::load(f[0]).expect("language");
-            if run_case(&mut out, &b, f[0], f[1].parse().unwrap(), f[2], f[3].parse().unwrap()) {
+            let done = match f[2].split_once('@') {
+                Some((pos, mode)) => run_case(&mut out, &b, f[0], f[1].parse().unwrap(), pos, f[3].parse().unwrap(), false, &[mode.to_string()]),
+                None => run_case(&mut out, &b, f[0], f[1].parse().unwrap(), f[2], f[3].parse().unwrap(), true, &[]),
+            };
+            if done {
                 n += 1;
             }
         }
@@ -354,7 +547,7 @@ fn main() {
     }
     let seed = seed_from_env();
     let sizes: &[usize] = if tier_is_thorough() { &[1000, 10000, 100000] } else { &[1000, 10000] };
-    for lang in ["lst", "arith", "jsonish", "stmt", "cdecl", "pyish", "markscan", "declscan"] {
+    for (li, lang) in ["lst", "arith", "jsonish", "stmt", "cdecl", "pyish", "markscan", "declscan"].into_iter().enumerate() {
         let b = match zoo::load(lang) {
             Ok(b) => b,
             Err(e) => {
@@ -364,7 +557,7 @@ fn main() {
         };
         for &size in sizes {
             for wher in ["start", "q1", "mid", "q3", "end", "deep"] {
-                if run_case(&mut out, &b, lang, size, wher, seed) {
+                if run_case(&mut out, &b, lang, size, wher, seed, true, &modes_for(li, seed, wher)) {
                     n += 1;
                 } else {
                     eprintln!("c12: case {lang} {size} {wher} could not be built");
